@@ -66,6 +66,11 @@ type model struct {
 	// opportunity although a prefix would have fitted the rest of the line (all / the word begins
 	// a text box that is not the first box of the line)
 	owSplits, owSplitsInBox, owDeferred, owDeferredBox int
+	// soft breaks taken inside a text node because the word that follows, made of several inline
+	// pieces (text, inline box, text ...), does not fit: all / those where the first two pieces still
+	// fitted the line, i.e. the overflow shows in the third or a later piece and the break lies
+	// before one or more whole unbreakable inline pieces
+	pieceRebreaks, pieceRebreaksPast int
 }
 
 func parseLH(lh string, fs float64) (float64, error) {
@@ -311,6 +316,7 @@ const eps = 1e-6
 func (m *model) Layout(W float64) (lines []Line, guard string) {
 	guards := map[string]bool{}
 	m.owSplits, m.owSplitsInBox, m.owDeferred, m.owDeferredBox = 0, 0, 0, 0
+	m.pieceRebreaks, m.pieceRebreaksPast = 0, 0
 	indent := float64(m.p.Indent)
 	if m.p.IndPct != 0 {
 		indent = W * float64(m.p.IndPct) / 100
@@ -332,6 +338,12 @@ func (m *model) Layout(W float64) (lines []Line, guard string) {
 			q, f := m.unitEnd(end)
 			full, ns := m.widths(end, q)
 			if end > pos && x+ns > avail+eps {
+				if np, k := m.overflowPiece(end, q, x, avail); np >= 2 {
+					m.pieceRebreaks++
+					if k >= 2 {
+						m.pieceRebreaksPast++
+					}
+				}
 				if m.owAny {
 					// the unit does not fit the rest of the line: overflow-wrap must not cut it here,
 					// the line has an ordinary opportunity before it
@@ -421,6 +433,82 @@ func (m *model) Layout(W float64) (lines []Line, guard string) {
 		}
 	}
 	return lines, ""
+}
+
+// pieces returns the number of inline pieces of the unit items[p:q]: maximal runs of content items
+// with no box edge between them.
+func (m *model) pieces(p, q int) int {
+	n, edge := 0, true
+	for i := p; i < q; i++ {
+		switch m.items[i].k {
+		case 'o', 'x':
+			edge = true
+		case 'c', 'a':
+			if m.items[i].k == 'c' && m.items[i].sp {
+				return n
+			}
+			if edge {
+				n++
+				edge = false
+			}
+		}
+	}
+	return n
+}
+
+// overflowPiece describes the unit items[end:q] that does not fit the rest of the line (x used of
+// avail) when the break point before it lies inside a text node (the character before it belongs to
+// the same text node, so that the text box holding both has to be split again): np is the number of
+// inline pieces of the unit, k the index of the piece in which the line overflows (an end edge
+// counts with the piece it ends, a start edge with the piece it starts).  np = 0 when the break
+// point is at a box edge or next to an atomic inline.
+func (m *model) overflowPiece(end, q int, x, avail float64) (np, k int) {
+	if end == 0 || m.items[end].k != 'c' || m.items[end-1].k != 'c' || m.items[end-1].tn != m.items[end].tn {
+		return 0, 0
+	}
+	np = m.pieces(end, q)
+	piece, edge := 0, false
+	for i := end; i < q; i++ {
+		it := m.items[i]
+		at := piece
+		switch it.k {
+		case 'x':
+			edge = true
+		case 'o':
+			edge = true
+			at = piece + 1
+		case 'c', 'a':
+			if it.k == 'c' && it.sp {
+				return np, -1
+			}
+			if edge {
+				piece++
+				edge = false
+			}
+			at = piece
+		}
+		x += it.w
+		if x > avail+eps {
+			return np, at
+		}
+	}
+	return np, -1
+}
+
+// multiPieceWords is the number of unbreakable units of the paragraph made of three or more inline
+// pieces.
+func (m *model) multiPieceWords() (n int) {
+	for p := 0; p < len(m.items); {
+		q, _ := m.unitEnd(p)
+		if m.pieces(p, q) >= 3 {
+			n++
+		}
+		if q <= p {
+			break
+		}
+		p = q
+	}
+	return n
 }
 
 // endSpacingResplit reports the D16 configuration at a soft break before items[end]: an end edge
